@@ -75,6 +75,13 @@ StepOn(st, rest) ==
   ELSE IF rest # <<>> THEN << OnByte(st, Head(rest)), Tail(rest) >>
   ELSE << OnEOF(st), rest >>
 
+\* The same with an index into the stream instead of the remaining input (Tail of a long sequence costs its
+\* length): i bytes of s have been taken.  Returns <<st', i'>>.
+StepIdx(st, s, i) ==
+  IF st.pb # <<>> THEN << OnByte([st EXCEPT !.pb = Tail(st.pb)], Head(st.pb)), i >>
+  ELSE IF i < Len(s) THEN << OnByte(st, s[i + 1]), i + 1 >>
+  ELSE << OnEOF(st), i >>
+
 Concat(msgs) == FoldLeft(LAMBDA acc, m : acc \o m.raw, <<>>, msgs)
 
 (***************************************************************************)
